@@ -46,7 +46,7 @@ TrServe ==
          env == [mime |-> Ev.mime]
          O   == IF Ev.ev = "gserve" THEN GServeOutcomes(G, req, env)
                 ELSE IF Ev.inst \in DOMAIN G.rs THEN RServeOutcomes(G, Ev.inst, req) ELSE {}
-         plain == DOMAIN Ev.faults = {}
+         plain == DOMAIN Ev.faults = {} /\ AllIn(Ev.host, Printable)       \* non-ASCII Host bytes: only "no panic" is checked
          \* is the observation explained by the specified reply o under the fault plan?
          Explains(o) ==
            LET f == FaultOf(o, Ev.faults)  gd == Guard(G, o) IN
@@ -56,7 +56,7 @@ TrServe ==
                    ELSE R.escaped = EscKind(f.val) /\ R.escval = f.val /\ R.recovered = <<>>
          \* C16 scope: a router without a recovery of its own that was merely Added to a group that has one
          outOfScope == \E o \in O : o.kind # "gnf" /\ Ev.ev = "gserve" /\ G.rec /\ G.rrec[o.rname] = "" /\ FaultOf(o, Ev.faults).fired
-     IN /\ Check("C05", plain => R.escaped = "none", <<"panic without a fault plan", Ev.method, Ev.path, Ev.host, R.escaped, R.escval>>)
+     IN /\ Check("C05", DOMAIN Ev.faults = {} => R.escaped = "none", <<"panic without a fault plan", Ev.method, Ev.path, Ev.host, R.escaped, R.escval>>)
         /\ Check("C13", (plain /\ O # {}) => \E o \in O : SameReply(o),
                  <<"group dispatch", Ev.ev, Ev.inst, Ev.method, Ev.path, Ev.host, Ev.accept, "got", R.kind, R.rname, R.h, R.params, R.urlPath,
                    "want", SetSeq({<<ObsKind(o), o.rname, o.h, o.params, o.urlPath>> : o \in O})>>)
@@ -65,7 +65,7 @@ TrServe ==
         /\ Check("C07", (plain /\ O # {}) => \E o \in O : SameReply(o) /\ R.order = o.order,
                  <<"a router's answer depends on another instance", Ev.path, R.kind, R.rname, R.order, "want", SetSeq({<<ObsKind(o), o.rname, o.order>> : o \in O})>>)
         /\ Check("C13", (plain /\ Ev.ev = "gserve" /\ R.kind = "gnf") => R.finalPath = Ev.path, <<"request path changed by rejecting matchers", Ev.path, R.finalPath>>)
-        /\ Check("C16", (O # {} /\ ~outOfScope) => \E o \in O : Explains(o),
+        /\ Check("C16", (O # {} /\ ~outOfScope /\ AllIn(Ev.host, Printable)) => \E o \in O : Explains(o),
                  <<"recovery", Ev.ev, Ev.inst, Ev.method, Ev.path, Ev.faults, "got", R.kind, R.order, R.escaped, R.escval, R.recovered,
                    "guards", SetSeq({<<ObsKind(o), o.order, Guard(G, o)>> : o \in O})>>)
 
